@@ -299,6 +299,9 @@ std::istream& operator >> (std::istream& is, Estimate<T,U>& estimate)
   double error;
   is >> error;
 
+  if (is.fail())
+    return is;
+
   if (bracketed) 
   {
     if (!expect(is, ')'))
